@@ -46,11 +46,13 @@ NPROC = 14
 
 def _run_chunk(job):
     from harness import msgdata
-    idx, cases, seed = job
+    idx, cases, seed = job[:3]
+    history = len(job) > 3 and job[3]
+    cases = [dict(c) for c in cases]
     for c in cases:
         c["data"] = bytes.fromhex(c.pop("hex"))
     try:
-        return idx, msgdata.execute(cases, seed=seed), None
+        return idx, msgdata.execute(cases, seed=seed, history=history), None
     except BaseException:
         import traceback
         return idx, None, traceback.format_exc()[-2000:]
@@ -120,6 +122,17 @@ def fn(ck, a):
         for k, i in enumerate(order):
             chunks[k % nchunks].append(cases[i])
         jobs = [(k, ch, ck.seed * 1000 + k) for k, ch in enumerate(chunks) if ch]
+        # the same relations later in the life of a folder (expunge of every other message, pack):
+        # a few chunks of small messages of different sizes are run once more in worlds that pack early
+        small = [c for c in cases if len(c["hex"]) < 6000 and "deliver" in c["ways"]]
+        hrng = random.Random(ck.seed + 160)
+        hrng.shuffle(small)
+        nh = 6 if thorough else 2
+        for h in range(nh):
+            part = [dict(c, ways=[x for x in c["ways"] if x != "copy"], tag=c["tag"] + f"@h{h}")
+                    for c in small[h * 14:(h + 1) * 14]]
+            if part:
+                jobs.append((len(jobs), part, ck.seed * 1000 + 900 + h, True))
         ctx = mp.get_context("fork")
         with ctx.Pool(NPROC) as pool:
             results = pool.map(_run_chunk, jobs, chunksize=1)
